@@ -126,10 +126,11 @@ def tlc(module, cfg=None, outname=None, workdir=None, workers=1, env=None, timeo
     meta = os.path.join(workdir, "meta-" + outname)
     shutil.rmtree(meta, ignore_errors=True)
     cfg = cfg or module + ".cfg"
-    cmd = ["java", "-Xmx" + xmx, "-XX:+UseParallelGC", "-cp",
-           TLA_JAR + ":/opt/veriftools/tla/CommunityModules-deps.jar", "tlc2.TLC"]
-    # use the `tlc` wrapper when present: it already has the CommunityModules on its classpath
-    cmd = ["tlc"]
+    # java is invoked directly: the launcher sizes the MAIN thread's stack from -Xss on the command
+    # line only (not from JAVA_TOOL_OPTIONS), and TLC evaluates ASSUMEs, initial states and their
+    # invariants on the main thread - the recursive evaluators need a deep stack there too
+    cmd = ["java", "-Xss1g", "-Xmx" + xmx, "-XX:+UseParallelGC", "-Dtlc2.tool.queue.IStateQueue=StateDeque",
+           "-cp", TLA_JAR + ":/opt/veriftools/tla/CommunityModules-deps.jar", "tlc2.TLC"]
     cmd += ["-workers", str(workers), "-metadir", meta, "-cleanup", "-noGenerateSpecTE",
             "-config", cfg]
     if simulate:
@@ -140,7 +141,7 @@ def tlc(module, cfg=None, outname=None, workdir=None, workers=1, env=None, timeo
         cmd += extra
     cmd += [module + ".tla"]
     e = dict(os.environ)
-    e["JAVA_TOOL_OPTIONS"] = JAVA_OPTS + " -Xmx" + xmx
+    e.pop("JAVA_TOOL_OPTIONS", None)
     if env:
         e.update({k: str(v) for k, v in env.items()})
     t0 = time.time()
